@@ -33,6 +33,36 @@ CLAIMS = {
             "Trusted: engine B, bytearray.reverse()/index-store semantics. Elements are integers in [0,255].",
             "abstract interpretation over an abstract buffer (generic element, affine domain) + def-use taint rule",
             "B", "DESIGN.md section 4, C08"),
+    "C01": ("other",
+            "Structural half of round-tripping, for all specs of the shape lattice and all values: abstract interpretation of "
+            "the generator; on every emitted class the write grammar and the read grammar (extracted by data flow) are mirror "
+            "images under the inverse table, no emitted method reads an unbound name, the constructor takes exactly the "
+            "declared fields and derives length fields from their referents, absent optionals are constructible, byte_size "
+            "is the reader position delta; plus the primitive round trips (C04/C07/C08 re-run). Carries the open finding F3. "
+            "Does NOT decide end-to-end value equality (wire-unambiguity side conditions, codec library).",
+            "Trusted: engine C, inverse table in sa/genabs/refcheck.py, shape lattice as cover of the grammar.",
+            "abstract interpretation of the generator + write/read grammar extraction and mirror comparison on emitted ASTs",
+            "B+C", "DESIGN.md section 4, C01"),
+    "C02": ("other",
+            "Abstract interpretation of the generator over the shape lattice; the write grammar of every emitted serialize "
+            "equals, token by token, the reference grammar computed from the abstract XML by an independent table of "
+            "eo-protocol semantics (order, encodings incl. overrides, length minus offset, hardcoded/dummy values and guard, "
+            "breaks, separating vs trailing delimiters, padded flag, sanitisation brackets, case arms); explicit boolean "
+            "defaults are shapes of their own; family()/action() provenance and the integer width table are checked on the "
+            "emitter. Does NOT decide bytes for concrete values (composition with C04/C07/C08/C09).",
+            "Trusted: engine C, sa/refs/wire_semantics.py.",
+            "abstract interpretation of the generator + comparison of the extracted write grammar with a reference grammar",
+            "A+C", "DESIGN.md section 4, C02"),
+    "C03": ("other",
+            "Abstract interpretation of the generator; the read grammar of every emitted deserialize equals the reading "
+            "rules of the reference (loop forms from the element's fixed size / boundedness included), Optional values are "
+            "tracked into the constructor, the result is built from what was read; the reader never raises except the "
+            "documented negative-length ValueError and clips every read (C05 re-run), padded strings are cut at the first "
+            "0xFF (C04 reader side), unknown enum ordinals are preserved (C14). Carries the open finding F3. Does NOT decide "
+            "termination for zero-size elements (degenerate).",
+            "Trusted: engines B/C, sa/refs/wire_semantics.py, sa/refs/reader_model.py.",
+            "abstract interpretation of the generator + read-grammar comparison + None-flow analysis + reader refinement",
+            "A+B+C", "DESIGN.md section 4, C03"),
     "C04": ("other",
             "Compositional: (W) what every add_* appends and (R) what every get_* consumes/returns are computed by "
             "abstract interpretation of the real classes on every path; (M) for each documented API pair the reader's "
@@ -117,6 +147,15 @@ CLAIMS = {
             "instruction grammar, CPython ast for the skeleton.",
             "abstract interpretation of the generator over a finite shape lattice + typestate rule on emitted ASTs",
             "C", "DESIGN.md section 4, C15"),
+    "C16": ("other",
+            "Abstract interpretation of the generator; the guards of every emitted serialize (None guard, exact / padded / "
+            "length-field-bounded length guard with bound max(type)+offset, isinstance / is-not-None case-data guards, each "
+            "raising SerializationError) are extracted with the position of the write they dominate and must equal the "
+            "reference guard table; integer range and string length errors are the writer's (C09 analyses re-run). Does NOT "
+            "decide validity of array elements beyond the writer's checks.",
+            "Trusted: engines B/C, guard table in sa/refs/wire_semantics.py.",
+            "abstract interpretation of the generator + guard extraction/dominance comparison with a reference table",
+            "B+C", "DESIGN.md section 4, C16"),
     "C19": ("proof",
             "Same abstract interpretation of the generator; on every emitted class the S-immut rule: fields private and "
             "assigned only in __init__, getter-only properties (no setter/deleter/__setattr__), byte_size set once on the "
